@@ -899,7 +899,7 @@ Proof.
   intros s gl o HF.
   assert (Stay : exists gl', FI s gl' /\ gl_ext gl gl') by (exists gl; split; [exact HF|apply gl_ext_refl]).
   pose proof HF as [a0 [HR0 [HI0 [H80 [HM0 [HC0 HB0]]]]]].
-  destruct o as [i|i|i|i|i p ok|k ok|i]; cbn [gstep].
+  destruct o as [i|i|i|i|i p ok|k ok|i|i ok]; cbn [gstep].
   - (* GElect *)
     unfold valid_id. destruct (N.ltb_spec i (n_nodes cfg)) as [Hi|]; cbn [fst]; [|exact Stay].
     exists gl. split; [|apply gl_ext_refl]. eapply (fi_frame s gl (GElect i)); eauto.
@@ -1100,6 +1100,15 @@ Proof.
     all: try (apply K1_follower; cbn; auto; lia).
     all: try (cbn; discriminate).
     all: try (cbn [gstep]; unfold valid_id; destruct (N.ltb_spec i (n_nodes cfg)); [reflexivity|lia]).
+  - (* GTimeoutNow *)
+    unfold valid_id. destruct (N.ltb_spec i (n_nodes cfg)) as [Hi|]; cbn [fst]; [|exact Stay].
+    destruct ok; cbn [fst]; [|exact Stay].
+    exists gl. split; [|apply gl_ext_refl]. eapply (fi_frame s gl (GTimeoutNow i true)); eauto.
+    all: try (intros ? ? ? ? []; fail).
+    all: try (intros; apply OutOk_nil; fail).
+    + cbn [gstep]. unfold valid_id. destruct (N.ltb_spec i (n_nodes cfg)); [reflexivity|lia].
+    + apply (K1_elect cfg quorum_ok).
+    + intros _. apply (T1_cand s gl a0 i); auto. cbn. lia.
 Qed.
 End WithBase.
 
